@@ -25,6 +25,8 @@ type vLeaf struct {
 	elems  []*sdcpb.PathElem
 	strs   []string // cache path (ToStrings form)
 	isUint bool
+	enum   []string // non-empty: enumeration leaf, value is one of these
+	empty  bool     // presence container: the value is the empty typed value
 	entry  string   // id of the enclosing list entry ("" = none)
 	keyOf  string   // non-empty: this is the key leaf of that entry (value = keyVal)
 	keyVal string
@@ -149,6 +151,10 @@ func vPickScenario() *vScenario {
 		sc = vScenarioPrefix()
 	case 3:
 		sc = vScenarioOnePath2()
+	case 4:
+		sc = vScenarioDefaulted()
+	case 5:
+		sc = vScenarioPresence()
 	default:
 		sc = vScenarioThin()
 	}
@@ -156,6 +162,27 @@ func vPickScenario() *vScenario {
 		l.tag = "L" + string(rune('0'+i))
 	}
 	return sc
+}
+
+// a leaf that has a YANG default (admin-state, default "enable"): the tree adds a
+// "default" variant next to the intents' values
+func vScenarioDefaulted() *vScenario {
+	l := vIfLeaf("lo1", "admin-state", false)
+	l.enum = []string{"enable", "disable"}
+	return &vScenario{
+		leaves: []*vLeaf{l, vIfKeyLeaf("lo1")},
+		owners: []string{"A", "B"},
+	}
+}
+
+// an explicitly set presence container (stored as an empty value on the container
+// node) with a leaf below it
+func vScenarioPresence() *vScenario {
+	// like a list entry, a presence container that an intent defines makes its subtree "touched"
+	pc := &vLeaf{id: "choices/case1", elems: []*sdcpb.PathElem{vPE("choices"), vPE("case1")}, strs: []string{"choices", "case1"}, empty: true, entry: "choices/case1"}
+	el := &vLeaf{id: "choices/case1/case-elem/elem", elems: []*sdcpb.PathElem{vPE("choices"), vPE("case1"), vPE("case-elem"), vPE("elem")},
+		strs: []string{"choices", "case1", "case-elem", "elem"}, entry: "choices/case1"}
+	return &vScenario{leaves: []*vLeaf{pc, el}, owners: []string{"A", "B"}}
 }
 
 func vScenarioOnePath2() *vScenario {
@@ -175,6 +202,9 @@ func (l *vLeaf) tv(v vVal) *sdcpb.TypedValue {
 	if l.keyOf != "" {
 		return vStrTV(l.keyVal)
 	}
+	if l.empty {
+		return &sdcpb.TypedValue{Value: &sdcpb.TypedValue_EmptyVal{}}
+	}
 	if l.isUint {
 		return vUintTV(v.u)
 	}
@@ -185,9 +215,15 @@ func (l *vLeaf) newVal(tag string) vVal {
 	if l.keyOf != "" {
 		return vVal{s: l.keyVal}
 	}
+	if l.empty {
+		return vVal{}
+	}
 	if l.isUint {
 		// four-digit values: one digit count, so decimal renderings do not fork
 		return vVal{u: uint64(verifrt.IntRange(tag, 1000, 9999))}
+	}
+	if len(l.enum) > 0 {
+		return vVal{s: l.enum[verifrt.Choice(tag, len(l.enum))]}
 	}
 	s := verifrt.String(tag, 1, "ab")
 	verifrt.Assume(len(s) == 1)
@@ -198,6 +234,10 @@ func (l *vLeaf) newVal(tag string) vVal {
 func (l *vLeaf) sameVal(tv *sdcpb.TypedValue, v vVal) bool {
 	if l.keyOf != "" {
 		return tv.GetStringVal() == l.keyVal
+	}
+	if l.empty {
+		_, ok := tv.GetValue().(*sdcpb.TypedValue_EmptyVal)
+		return ok
 	}
 	if l.isUint {
 		_, ok := tv.GetValue().(*sdcpb.TypedValue_UintVal)
@@ -312,7 +352,7 @@ func vArbitraryState(sc *vScenario) *vState {
 }
 
 func (l *vLeaf) eqVal(a, b vVal) bool {
-	if l.keyOf != "" {
+	if l.keyOf != "" || l.empty {
 		return true
 	}
 	if l.isUint {
@@ -392,6 +432,31 @@ func vArbitraryRequest(st *vState, tag string, ownerIdx int) *vRequest {
 	}
 	verifrt.Assume(any) // an intent without content is a delete
 	return r
+}
+
+// vArbitraryRequests picks Param("intents", 1) requests of distinct owners
+// (priorities pairwise distinct also among the requests).
+func vArbitraryRequests(pre *vState) []*vRequest {
+	sc := pre.sc
+	n := verifrt.Param("intents", 1)
+	first := verifrt.Choice("req.owner", len(sc.owners))
+	reqs := []*vRequest{vArbitraryRequest(pre, "req.", first)}
+	if n >= 2 && len(sc.owners) >= 2 {
+		k := verifrt.Choice("req2.owner", len(sc.owners)-1)
+		if k >= first {
+			k++
+		}
+		r2 := vArbitraryRequest(pre, "req2.", k)
+		if !r2.del && !reqs[0].del {
+			verifrt.Assume(r2.prio != reqs[0].prio)
+		}
+		// a new priority must not collide with the priority another request's owner keeps or gets
+		if !reqs[0].del {
+			verifrt.Assume(verifrt.Or(!r2.del, true))
+		}
+		reqs = append(reqs, r2)
+	}
+	return reqs
 }
 
 func (r *vRequest) toProto(sc *vScenario) *sdcpb.TransactionIntent {
@@ -631,28 +696,50 @@ func (post *vState) assertDevice(pre *vState, reqs []*vRequest, d *vDevice, labe
 			}
 		}
 		definedBefore := false
-		orphaned := true
+		orphaned := false // some former definer is orphan-deleted: the device may keep the path
+		removed := 0      // stored definers of the path whose intents are part of this transaction
 		for _, o := range sc.owners {
 			if pre.pres[l.id][o] {
 				definedBefore = true
-				isOrphanDel := false
 				for _, r := range reqs {
 					if r.owner == o && r.del && r.orphan {
-						isOrphanDel = true
+						orphaned = true
 					}
 				}
-				if !isOrphanDel {
-					orphaned = false
+				for _, r := range reqs {
+					if r.owner == o {
+						removed++
+					}
 				}
 			}
 		}
+		// The pipeline loads only the two best stored priorities of a path as alternatives and
+		// skips the transaction's own intents among them: the situation in which two intents of
+		// one transaction already define the path is named separately.
+		sfx := ""
+		if removed >= 2 {
+			sfx = "/two-intents-of-the-transaction-define-the-path"
+		}
 		switch {
 		case live:
-			verifrt.Assert(d.pres[l.id], label+"-live-path-on-device")
+			if !d.pres[l.id] && sfx == "" {
+				// removed together with an explicitly set presence container above it that
+				// another intent gave up?
+				for _, l2 := range sc.leaves {
+					if l2.empty && l2 != l && vIsPrefix(l2.id, l.id) {
+						for _, r := range reqs {
+							if pre.pres[l2.id][r.owner] && !post.pres[l2.id][r.owner] {
+								sfx = "/below-presence-container-given-up-by-another-intent"
+							}
+						}
+					}
+				}
+			}
+			verifrt.Assert(d.pres[l.id], label+"-live-path-on-device"+sfx)
 			if d.pres[l.id] {
 				for _, o := range sc.owners {
 					if post.pres[l.id][o] {
-						verifrt.Assert(verifrt.Implies(post.wins(l, o), l.sameVal(d.tv[l.id], post.val[l.id][o])), label+"-winner-value-on-device")
+						verifrt.Assert(verifrt.Implies(post.wins(l, o), l.sameVal(d.tv[l.id], post.val[l.id][o])), label+"-winner-value-on-device"+sfx)
 					}
 				}
 			}
@@ -721,6 +808,9 @@ func vSameTV(a, b *sdcpb.TypedValue) bool {
 	case *sdcpb.TypedValue_StringVal:
 		y, ok := b.GetValue().(*sdcpb.TypedValue_StringVal)
 		return ok && x.StringVal == y.StringVal
+	case *sdcpb.TypedValue_EmptyVal:
+		_, ok := b.GetValue().(*sdcpb.TypedValue_EmptyVal)
+		return ok
 	}
 	return false
 }
@@ -758,8 +848,7 @@ func VerifPipelineStep() {
 	env := vNewEnv()
 	pre := vArbitraryState(sc)
 	pre.install(env)
-	req := vArbitraryRequest(pre, "req.", verifrt.Choice("req.owner", len(sc.owners)))
-	reqs := []*vRequest{req}
+	reqs := vArbitraryRequests(pre)
 	verifrt.Reach("state-built")
 	rsp, err := vStep(env, sc, "t1", reqs, false)
 	verifrt.Reach("step-done")
